@@ -123,6 +123,55 @@ def delete (s : Store) (id : Nat) : Store × Except KErr Unit :=
 /-- `JwkMemStore::exists` -/
 def «exists» (s : Store) (id : Nat) : Bool := (lookup s id).isSome
 
+/-! ### the Stronghold-backed store (`identity_stronghold::StrongholdStorage`)
+
+The same state machine with its own regenerated flags.  Differences that matter to the contract: `insert` decodes the
+secret key before it stores anything, and `delete` goes through the vault's `delete_secret`, which reports success for
+ANY record id once the vault exists (i.e. once some key was written) unless existence is tested first. -/
+
+def shCompatible (k : KType) (a : Alg) : Bool := Gen.C15.shCompatible.contains (ktName k, algName a)
+
+/-- `StrongholdStorage::generate` -/
+def generateS (s : Store) (kt : KType) (a : Alg) : Store × Except KErr GenOut :=
+  if kt = .other then (s, .error .unsupportedKeyType)
+  else if !shCompatible kt a then (s, .error .keyAlgMismatch)
+  else if kt ≠ .ed25519 then (s, .error .unspecified)
+  else
+    let id := s.next + 1
+    let jwk : Jwk := ⟨.okpEd25519, true, some (some a), some id, id⟩
+    (⟨s.keys ++ [(id, jwk)], id⟩,
+     .ok ⟨id, id, Gen.C15.shGenerateReturnsPublicWithKidAndAlg, Gen.C15.shGenerateReturnsPublicWithKidAndAlg, a⟩)
+
+/-- `StrongholdStorage::insert` -/
+def insertS (s : Store) (j : Jwk) : Store × Except KErr Nat :=
+  match famType j.fam with
+  | none => (s, .error .unsupportedKeyType)
+  | some kt =>
+    if Gen.C15.shInsertRequiresPrivate && !j.isPrivate then (s, .error .notPrivate)
+    else
+      let algOk : Except KErr Unit :=
+        if !Gen.C15.shInsertRequiresAlg then .ok () else
+        match j.alg with
+        | none => .error .unsupportedAlg
+        | some none => .error .unsupportedAlg
+        | some (some a) => if shCompatible kt a then .ok () else .error .keyAlgMismatch
+      match algOk with
+      | .error e => (s, .error e)
+      | .ok _ =>
+        if Gen.C15.shInsertExpandsSecret && j.secret.isNone then (s, .error .unspecified)
+        else
+          let id := s.next + 1
+          (⟨s.keys ++ [(id, j)], id⟩, .ok id)
+
+/-- `StrongholdStorage::delete` -/
+def deleteS (s : Store) (id : Nat) : Store × Except KErr Unit :=
+  match lookup s id with
+  | some _ => (⟨s.keys.filter (fun e => !(e.1 == id)), s.next⟩, .ok ())
+  | none =>
+    if Gen.C15.shDeleteChecksExistence then (s, .error .keyNotFound)
+    else if s.next = 0 then (s, .error (if Gen.C15.shDeleteReportsMissing then .keyNotFound else .unspecified))
+    else (s, .ok ())
+
 inductive Op
   | generate (kt : KType) (a : Alg) | insert (j : Jwk) | delete (id : Nat)
   deriving DecidableEq, Repr
